@@ -38,7 +38,7 @@ class SourceModule(Object):
         except AttributeError:
             pass
 
-        source = Source(open(self.filename).read(), self.filename)
+        source = self._source()
         project = self.project
         outer_cuts = project._cycle_cuts
         project._cycle_cuts = cuts = set()
@@ -61,8 +61,19 @@ class SourceModule(Object):
     @cached_property
     def _own_names(self):
         # type: () -> dict[str, Name]
-        source = Source(open(self.filename).read(), self.filename)
-        return extract_scope(source, None).exported_names
+        return extract_scope(self._source(), None).exported_names
+
+    def _source(self):
+        # type: () -> Source
+        # a project module that cannot be read or parsed (half-written,
+        # wrong encoding) has nothing to offer; it must not make the
+        # analysis of the file that imports it fail
+        try:
+            source = Source(open(self.filename).read(), self.filename)
+            source.tree
+        except (SyntaxError, ValueError, EnvironmentError):
+            source = Source('', self.filename)
+        return source
 
     @property
     def _attrs(self):
